@@ -1,2 +1,321 @@
-(* genops.ml — generator-side model operations; filled in with the Gen model. *)
-let run (_op : string) (_a : string array) : string = "ERR BadOp"
+(* genops.ml — generator-side model operations (Model/Gen.v extracted).
+   Every op prints one canonical line; the harness (genops.rs) prints the same line for the
+   ops that exist on both sides.  Compiled before driver.ml, hence its own small parsers. *)
+open Model
+
+(* the extracted model defines its own (Coq) string type; restore OCaml's *)
+type string = String.t
+
+(* ---- N / nat <-> int ---- *)
+let rec pos_of_int (i : int) : positive =
+  if i = 1 then XH else if i land 1 = 0 then XO (pos_of_int (i lsr 1)) else XI (pos_of_int (i lsr 1))
+let n_of_int (i : int) : n = if i = 0 then N0 else Npos (pos_of_int i)
+let rec int_of_pos (p : positive) : int =
+  match p with XH -> 1 | XO q -> 2 * int_of_pos q | XI q -> (2 * int_of_pos q) + 1
+let int_of_n (x : n) : int = match x with N0 -> 0 | Npos p -> int_of_pos p
+let rec nat_of_int (i : int) : nat = if i <= 0 then O else S (nat_of_int (i - 1))
+
+(* ---- hex / texts ---- *)
+let hexdigit c =
+  match c with
+  | '0' .. '9' -> Char.code c - 48
+  | 'a' .. 'f' -> Char.code c - 87
+  | 'A' .. 'F' -> Char.code c - 55
+  | _ -> failwith "hex"
+let is_hex c = match c with '0' .. '9' | 'a' .. 'f' | 'A' .. 'F' -> true | _ -> false
+let unhex (s : string) : int list =
+  List.init (String.length s / 2) (fun i -> (16 * hexdigit s.[2 * i]) + hexdigit s.[(2 * i) + 1])
+let text_of_hex (s : string) : n list = List.map n_of_int (unhex s)
+let hex_of_text (k : n list) : string =
+  let b = Buffer.create (2 * List.length k) in
+  List.iter (fun x -> Buffer.add_string b (Printf.sprintf "%02x" (int_of_n x))) k;
+  Buffer.contents b
+let arg_text (s : string) : n list = if s = "-" then [] else text_of_hex s
+let show_text x = "TEXT " ^ hex_of_text x
+let show_bool b = if b then "BOOL 1" else "BOOL 0"
+
+(* ---- shapes ---- *)
+let flag o = if o then "1" else "0"
+let rec show (b : Buffer.t) (s : shape) : unit =
+  match s with
+  | SNull -> Buffer.add_char b 'N'
+  | SBool o -> Buffer.add_string b ("B" ^ flag o)
+  | SNumber o -> Buffer.add_string b ("#" ^ flag o)
+  | SString o -> Buffer.add_string b ("S" ^ flag o)
+  | SArray (x, o) -> Buffer.add_string b ("A" ^ flag o ^ "("); show b x; Buffer.add_char b ')'
+  | STuple (es, o) ->
+      Buffer.add_string b ("T" ^ flag o ^ "(");
+      List.iteri (fun i e -> if i > 0 then Buffer.add_char b ','; show b e) es;
+      Buffer.add_char b ')'
+  | SOneOf (vs, o) ->
+      Buffer.add_string b ("U" ^ flag o ^ "[");
+      List.iteri (fun i e -> if i > 0 then Buffer.add_char b '|'; show b e) vs;
+      Buffer.add_char b ']'
+  | SObject (c, o) ->
+      Buffer.add_string b ("O" ^ flag o ^ "{");
+      List.iteri (fun i (k, v) ->
+          if i > 0 then Buffer.add_char b ',';
+          Buffer.add_string b (hex_of_text k); Buffer.add_char b ':'; show b v) c;
+      Buffer.add_char b '}'
+let shape_str s = let b = Buffer.create 64 in show b s; Buffer.contents b
+
+type st = { s : string; mutable i : int }
+let peek p = if p.i < String.length p.s then p.s.[p.i] else '\000'
+let next p = let c = peek p in p.i <- p.i + 1; c
+let pflag p = next p = '1'
+let hexkey p =
+  let st = p.i in
+  while is_hex (peek p) do p.i <- p.i + 1 done;
+  text_of_hex (String.sub p.s st (p.i - st))
+let expect p c = if next p <> c then failwith ("expected " ^ String.make 1 c)
+
+(* [raw]: keep the written order (no BTree normalisation) — used for erased shapes *)
+let rec pshape raw p : shape =
+  match next p with
+  | 'N' -> SNull
+  | 'B' -> SBool (pflag p)
+  | '#' -> SNumber (pflag p)
+  | 'S' -> SString (pflag p)
+  | 'A' -> let o = pflag p in expect p '('; let x = pshape raw p in expect p ')'; SArray (x, o)
+  | 'T' -> let o = pflag p in expect p '('; STuple (plist raw p ')', o)
+  | 'U' ->
+      let o = pflag p in
+      expect p '[';
+      let es = plist raw p ']' in
+      SOneOf ((if raw then es else List.fold_left (fun acc x -> sset_insert x acc) [] es), o)
+  | 'O' ->
+      let o = pflag p in
+      expect p '{';
+      let c =
+        if peek p = '}' then (p.i <- p.i + 1; [])
+        else
+          let rec go acc =
+            let k = hexkey p in
+            expect p ':';
+            let v = pshape raw p in
+            let acc = if raw then acc @ [ (k, v) ] else map_insert k v acc in
+            if next p = '}' then acc else go acc
+          in
+          go []
+      in
+      SObject (c, o)
+  | c -> failwith ("bad shape char " ^ String.make 1 c)
+and plist raw p close : shape list =
+  if peek p = close then (p.i <- p.i + 1; [])
+  else
+    let rec go acc =
+      let x = pshape raw p in
+      let acc = x :: acc in
+      if next p = close then List.rev acc else go acc
+    in
+    go []
+let parse_shape s =
+  let p = { s; i = 0 } in
+  let r = pshape false p in
+  if p.i <> String.length s then failwith "trailing shape input";
+  r
+
+(* ---- documents ---- *)
+let rec pdoc p : json =
+  match next p with
+  | 'n' -> JNull | 't' -> JBool | '1' -> JNum | 's' -> JStr
+  | '[' ->
+      if peek p = ']' then (p.i <- p.i + 1; JArr [])
+      else
+        let rec go acc = let x = pdoc p in let acc = x :: acc in if next p = ']' then List.rev acc else go acc in
+        JArr (go [])
+  | '{' ->
+      if peek p = '}' then (p.i <- p.i + 1; JObj [])
+      else
+        let rec go acc =
+          let k = hexkey p in
+          expect p ':';
+          let v = pdoc p in
+          let acc = (k, v) :: acc in
+          if next p = '}' then List.rev acc else go acc
+        in
+        JObj (go [])
+  | c -> failwith ("bad doc char " ^ String.make 1 c)
+let parse_doc s =
+  let p = { s; i = 0 } in
+  let r = pdoc p in
+  if p.i <> String.length s then failwith "trailing doc input";
+  r
+let rec show_doc b (d : json) =
+  match d with
+  | JNull -> Buffer.add_char b 'n' | JBool -> Buffer.add_char b 't'
+  | JNum -> Buffer.add_char b '1' | JStr -> Buffer.add_char b 's'
+  | JArr l -> Buffer.add_char b '['; List.iteri (fun i e -> if i > 0 then Buffer.add_char b ','; show_doc b e) l; Buffer.add_char b ']'
+  | JObj m ->
+      Buffer.add_char b '{';
+      List.iteri (fun i (k, v) -> if i > 0 then Buffer.add_char b ',';
+                   Buffer.add_string b (hex_of_text k); Buffer.add_char b ':'; show_doc b v) m;
+      Buffer.add_char b '}'
+let doc_str d = let b = Buffer.create 64 in show_doc b d; Buffer.contents b
+
+(* ---- items:  A<hexname>=<ty> ; S<hexname>{<hexfield>:<ty>,..} ; E<hexname>{..}   joined by ';'
+        ty:  p<hexname>[<ty,..>]  |  (ty,..)  ---- *)
+let rec show_ty b (x : ty) =
+  match x with
+  | TPath (n, args) ->
+      Buffer.add_char b 'p'; Buffer.add_string b (hex_of_text n);
+      if args <> [] then begin
+        Buffer.add_char b '<';
+        List.iteri (fun i a -> if i > 0 then Buffer.add_char b ','; show_ty b a) args;
+        Buffer.add_char b '>' end
+  | TTuple es ->
+      Buffer.add_char b '(';
+      List.iteri (fun i a -> if i > 0 then Buffer.add_char b ','; show_ty b a) es;
+      Buffer.add_char b ')'
+let show_members b ms =
+  Buffer.add_char b '{';
+  List.iteri (fun i (k, x) -> if i > 0 then Buffer.add_char b ',';
+               Buffer.add_string b (hex_of_text k); Buffer.add_char b ':'; show_ty b x) ms;
+  Buffer.add_char b '}'
+let items_str (its : item list) =
+  let b = Buffer.create 256 in
+  List.iteri (fun i it ->
+      if i > 0 then Buffer.add_char b ';';
+      match it with
+      | Alias (n, x) -> Buffer.add_char b 'A'; Buffer.add_string b (hex_of_text n); Buffer.add_char b '='; show_ty b x
+      | Struct (n, ms) -> Buffer.add_char b 'S'; Buffer.add_string b (hex_of_text n); show_members b ms
+      | Enum (n, ms) -> Buffer.add_char b 'E'; Buffer.add_string b (hex_of_text n); show_members b ms) its;
+  Buffer.contents b
+
+let rec pty p : ty =
+  match next p with
+  | 'p' ->
+      let n = hexkey p in
+      if peek p = '<' then (p.i <- p.i + 1; TPath (n, ptys p '>')) else TPath (n, [])
+  | '(' -> TTuple (ptys p ')')
+  | c -> failwith ("bad ty char " ^ String.make 1 c)
+and ptys p close =
+  if peek p = close then (p.i <- p.i + 1; [])
+  else
+    let rec go acc = let x = pty p in let acc = x :: acc in if next p = close then List.rev acc else go acc in
+    go []
+let pmembers p =
+  expect p '{';
+  if peek p = '}' then (p.i <- p.i + 1; [])
+  else
+    let rec go acc =
+      let k = hexkey p in
+      expect p ':';
+      let x = pty p in
+      let acc = (k, x) :: acc in
+      if next p = '}' then List.rev acc else go acc
+    in
+    go []
+let parse_items (s : string) : item list =
+  if s = "" || s = "-" then []
+  else
+    let p = { s; i = 0 } in
+    let rec go acc =
+      let it =
+        match next p with
+        | 'A' -> let n = hexkey p in expect p '='; Alias (n, pty p)
+        | 'S' -> let n = hexkey p in Struct (n, pmembers p)
+        | 'E' -> let n = hexkey p in Enum (n, pmembers p)
+        | c -> failwith ("bad item char " ^ String.make 1 c)
+      in
+      let acc = it :: acc in
+      if p.i >= String.length s then List.rev acc else (expect p ';'; go acc)
+    in
+    go []
+
+let show_opt_shape r = match r with Some s -> "OK " ^ shape_str s | None -> "NONE"
+
+(* inference result handed to compile_json_m:  S<shape> | E | P *)
+let infer_arg (a : string) : n list list -> (unit, shape) outcome =
+  fun _ ->
+    if a = "E" then Err () else if a = "P" then Panic
+    else Ok (parse_shape (String.sub a 1 (String.length a - 1)))
+
+let run (op : string) (a : string array) : string =
+  match op with
+  | "gen_render" -> show_text (gen_text (parse_shape a.(1)))
+  | "gen_file" -> show_text (file_text (first_pass (parse_shape a.(1))))
+  | "gen_name" -> show_text (shape_name (parse_shape a.(1)))
+  | "gen_repr" -> show_text (shape_representation (parse_shape a.(1)))
+  | "gen_case" -> (
+      let x = arg_text a.(2) in
+      match a.(1) with
+      | "snake" -> show_text (to_snake x)
+      | "pascal" -> show_text (to_pascal x)
+      | _ -> "ERR BadOp")
+  | "gen_crc" -> show_text (hex_upper (crc32 (arg_text a.(1))))
+  | "gen_path" -> show_text (out_path (arg_text a.(1)) (arg_text a.(2)))
+  (* post-fix variants (fixes/F14.diff, fixes/F15.diff), see Model/Gen.v *)
+  | "gen_path_f14" -> show_text (out_path_f14 (arg_text a.(1)) (arg_text a.(2)))
+  | "gen_render_f15" -> show_text (render (first_pass_f15 (parse_shape a.(1))))
+  | "gen_macro_path" -> show_text (macro_path (arg_text a.(1)) (arg_text a.(2)))
+  | "gen_plain" -> show_bool (plain_dir (arg_text a.(1)) && plain_name (arg_text a.(2)))
+  | "gen_compile" ->
+      (* gen_compile <hexname> <hexdir|-> <hexcwd> <infer> <write_ok> <hexpath>:<R|X> ... *)
+      let name = arg_text a.(1) in
+      let out_dir = if a.(2) = "-" then None else Some (text_of_hex a.(2)) in
+      let cwd = arg_text a.(3) in
+      let srcs =
+        List.map (fun s ->
+            match String.split_on_char ':' s with
+            | [ p; "R" ] -> (arg_text p, Some [])
+            | [ p; _ ] -> (arg_text p, None)
+            | _ -> failwith "src") (Array.to_list (Array.sub a 6 (Array.length a - 6)))
+      in
+      let r, tr = compile_json_m (infer_arg a.(4)) cwd out_dir name srcs (a.(5) = "1") in
+      let b = Buffer.create 256 in
+      (match r with
+       | Ok x -> Buffer.add_string b ("RET OK " ^ hex_of_text x)
+       | Err CRead -> Buffer.add_string b "RET ERR Read"
+       | Err CInfer -> Buffer.add_string b "RET ERR Infer"
+       | Err CWrite -> Buffer.add_string b "RET ERR Write"
+       | Panic -> Buffer.add_string b "RET PANIC");
+      Buffer.add_string b " TRACE";
+      List.iter (fun e ->
+          match e with
+          | EPrint l -> Buffer.add_string b (" P:" ^ hex_of_text l)
+          | ERead p -> Buffer.add_string b (" R:" ^ hex_of_text p)
+          | EWrite (p, c) -> Buffer.add_string b (" W:" ^ hex_of_text p ^ ":" ^ hex_of_text c)) tr;
+      Buffer.add_string b (" NOWRITE " ^ if no_write tr then "1" else "0");
+      Buffer.contents b
+  (* ---- decidable classes: the SAME predicates the Coq theorems use ---- *)
+  | "gen_good" -> show_bool (good_names (parse_shape a.(1)))
+  | "gen_decodable" -> show_bool (decodable (parse_shape a.(1)))
+  | "gen_serde_ok" -> show_bool (serde_ok (parse_shape a.(1)))
+  | "gen_c15class" -> show_bool (c15_class (parse_shape a.(1)))
+  | "gen_names_inj" -> show_bool (names_inj (parse_shape a.(1)))
+  | "gen_opt_array_ok" -> show_bool (opt_array_ok && opt_array_decodes)
+  | "gen_header_ok" -> show_bool (header_ok gen_header)
+  | "gen_header_ok_text" -> show_bool (header_ok (arg_text a.(1)))
+  | "gen_printable" ->
+      let rec keys s = match s with
+        | SArray (x, _) -> keys x
+        | SObject (c, _) -> List.concat_map (fun (k, v) -> k :: keys v) c
+        | SOneOf (l, _) | STuple (l, _) -> List.concat_map keys l
+        | _ -> [] in
+      show_bool (List.for_all printable_text (keys (parse_shape a.(1))))
+  (* ---- well-formedness / decoding, on the model's own items and on parsed real output ---- *)
+  | "gen_items" -> "ITEMS " ^ items_str (first_pass (parse_shape a.(1)))
+  | "gen_wfm" -> show_bool (wf_module (first_pass (parse_shape a.(1))))
+  | "gen_wfi" -> show_bool (wf_items (first_pass (parse_shape a.(1))))
+  | "gen_wf_items" -> show_bool (wf_items (parse_items a.(1)))
+  | "gen_render_items" -> show_text (render (parse_items a.(1)))
+  | "gen_decode" -> show_opt_shape (decode_auto (first_pass (parse_shape a.(1))))
+  | "gen_decode_items" -> show_opt_shape (decode_auto (parse_items a.(1)))
+  | "gen_erase" -> "OK " ^ shape_str (erase (parse_shape a.(1)))
+  (* ---- serde model ---- *)
+  | "gen_deser" ->
+      let s = parse_shape a.(1) and d = parse_doc a.(2) in
+      let its = first_pass s in
+      let fuel = nat_of_int (4 * (String.length a.(1) + String.length a.(2)) + 8) in
+      (match deser_root fuel its d with
+       | Some v -> let d' = reser v in "OK " ^ doc_str d' ^ " APPROX " ^ (if approx d d' then "1" else "0")
+       | None -> "FAIL")
+  | "gen_deser_items" ->
+      let its = parse_items a.(1) and d = parse_doc a.(2) in
+      let fuel = nat_of_int (4 * (String.length a.(1) + String.length a.(2)) + 8) in
+      (match deser_root fuel its d with
+       | Some v -> let d' = reser v in "OK " ^ doc_str d' ^ " APPROX " ^ (if approx d d' then "1" else "0")
+       | None -> "FAIL")
+  | "gen_approx" -> show_bool (approx (parse_doc a.(1)) (parse_doc a.(2)))
+  | _ -> "ERR BadOp"
